@@ -25,7 +25,13 @@ func (list *List[T]) ToJSON() ([]byte, error) {
 
 // FromJSON populates list's elements from the input JSON representation.
 func (list *List[T]) FromJSON(data []byte) error {
-	err := json.Unmarshal(data, &list.elements)
+	// decode into a temporary: a failed decode must not touch the list, and a successful one must
+	// not keep anything of the previous elements
+	var elements []T
+	err := json.Unmarshal(data, &elements)
+	if err == nil {
+		list.elements = elements
+	}
 	return err
 }
 
